@@ -10,7 +10,7 @@ CHECKS = {
              'OrderedSet and QuerySet and each recorded step is accepted or rejected by TLC. Histories are the '
              'quantifier of this property, and a bounded exhaustive model bound to the code by trace validation '
              'is the strongest check that decides them.',
-        design_ref='DESIGN.md §3.1, §4 C17',
+        design_ref='DESIGN.md §3, §4 C17',
         note='trusted: TLC, the JSON projection written by vt/adapters/orderedset.py (list, reversed, len, in, ==, '
              'first, last), the bound of three elements for exhaustiveness',
     ),
@@ -31,7 +31,7 @@ CHECKS.update({
              'Tours over that state graph, simulated histories (4 per class) and random 200-call histories are executed '
              'on the real library; after every call the outcome, pools, both navigation directions from every handle and '
              'all attribute reads must equal the post-state of the specification action.',
-        design_ref='DESIGN.md §3.2, §4 C02', note=META_NOTE),
+        design_ref='DESIGN.md §3, §4 C02', note=META_NOTE),
     'C09': dict(
         technique='observation operators of MetaObs.tla (Select, NavChain, NavSubtype, StableSort) evaluated by TLC on '
                   'the specification state after every step of Meta.tla histories and compared with what the real '
@@ -40,7 +40,7 @@ CHECKS.update({
              'operators and compared in every state the C02 histories, simulation and value-writing random histories '
              'reach: about three randomly composed queries/chains per step, with ties, reverse orderings, filters in '
              'any order, chains through association classes and reflexive phrases, all start forms.',
-        design_ref='DESIGN.md §3.2, §4 C09', note=META_NOTE),
+        design_ref='DESIGN.md §3, §4 C09', note=META_NOTE),
     'C10': dict(
         technique='Meta.tla value alphabet (VSetAttr, VDelAttr, ...) model-checked exhaustively on a class with plain, '
                   'identifying and referential two-letter-stem attributes; tours replayed with rotating spellings; reads '
@@ -48,15 +48,17 @@ CHECKS.update({
         text='The specification stores one value per declared name and has no spelling parameter at all; the adapter issues '
              'every call under a rotating spelling and reads back under all spellings, so any dependence of the code on the '
              'spelling shows as a mismatch with the specification state.',
-        design_ref='DESIGN.md §3.2, §4 C10', note=META_NOTE),
+        design_ref='DESIGN.md §3, §4 C10', note=META_NOTE),
     'C11': dict(
         technique='MetaObs.tla AssocViolations / IdViolations / Consistent / SubtypeViolations evaluated by TLC on every '
-                  'state of Meta.tla histories and compared with xtuml.check_* / is_consistent',
+                  'state of Meta.tla histories and compared with xtuml.check_* / is_consistent; over-populated ends by loading every '
+                  'population TLC enumerates from the C03 row choices; MetaObs!CliCount specifies xtuml.consistency_check.main '
+                  '(-r / -k restrictions, exit status) on the persisted model',
         text='The counts are defined relationally over the specification state (partner count outside multiplicity and '
              'conditionality per instance and end; null identifying values plus repeated identifiers) and compared after '
              'every step of exhaustive tours over all shapes and of histories with explicit null and repeated identifiers, '
              'for the unrestricted check and for every restriction by number or class.',
-        design_ref='DESIGN.md §3.2, §4 C11', note=META_NOTE),
+        design_ref='DESIGN.md §3, §4 C11', note=META_NOTE),
     'C16': dict(
         technique='Meta.tla on the reflexive 1C:1C shape: every arrangement of up to 5 (quick) / 6 (thorough) instances into '
                   'chains and rings is a TLC state; a tour visits every state; sort_reflexive results validated by TLC '
@@ -64,15 +66,17 @@ CHECKS.update({
         text='All link arrangements of a small pool are enumerated by the model checker rather than sampled, every one is '
              'built on the real library, and in each the sort is asked for both phrases on the whole pool and on subsets; '
              'larger pools (6-12) by random chain/ring constructions. Termination is enforced by a per-call time budget.',
-        design_ref='DESIGN.md §3.2, §4 C16', note=META_NOTE),
+        design_ref='DESIGN.md §3, §4 C16', note=META_NOTE),
     'C19': dict(
         technique='Meta.tla value alphabet (VNew over all typed positional/keyword mixes, VGenNext, VGenPeek) model-checked '
                   'with the integer and a user generator (invariant FreshIds, action property DefaultsOK); tours and '
-                  'random creation sequences (also with the uuid generator) validated by TLC with IdsOK',
+                  'random creation sequences (also with the uuid generator) validated by TLC with IdsOK; with the alphabet flag newref the '
+                  'arguments run through referential attributes (Meta!NewCall: keyword over positional over default, supplied '
+                  'references link as NewRow)',
         text='Every mix of positional, keyword and omitted arguments of a small class is an action instance of the model, so '
              'the tours execute all of them on the real library in every generator state; freshness of defaulted ids is '
              'checked against the set of all ids seen so far in the trace.',
-        design_ref='DESIGN.md §3.2, §4 C19', note=META_NOTE),
+        design_ref='DESIGN.md §3, §4 C19', note=META_NOTE),
 })
 
 
@@ -80,22 +84,25 @@ CHECKS.update({
     'C01': dict(
         technique='Meta.tla SaveLoad = LoadBuild(SavedRows) (relational join of the written values) with the action property '
                   'SaveLoadIdentity model-checked on seven shapes; tours with a SaveLoad at every state and value-heavy random '
-                  'histories replayed through eight serialisation and four loading routes; reloaded model validated by TLC',
+                  'histories replayed through eight serialisation and four loading routes; loaded populations with permuted / '
+                  'duplicate / null keys persisted and reloaded; instances persisted without schema (inferred classes); reloaded '
+                  'model validated by TLC',
         text='The specification defines what a reload yields for every state (not only persistable ones) and TLC proves on the '
              'bounded models that this is the identity on the persistable domain; the real serialise/persist + load round trip '
              'is executed at every state of the tours and after random histories with the value classes of the quantifier, and '
              'the reloaded schema, pools, values, links and the text fixed point are compared with the specification.',
-        design_ref='DESIGN.md §3.3, §4 C01', note=META_NOTE + '; the concrete representative chosen for each value class'),
+        design_ref='DESIGN.md §3, §4 C01', note=META_NOTE + '; the concrete representative chosen for each value class'),
     'C03': dict(
         technique='Meta.tla LoadBuild (relational join of rows) with invariant PermutationInvariant and action property LoadIsJoin '
                   'model-checked over all populations of <= 3/4 rows from 5-7 row choices per shape; every population rendered '
                   'as SQL and loaded through four routes with varying statement order and partition; creation through '
-                  'new()/clone() validated against Meta!NewRow',
+                  'new()/clone() validated against Meta!NewRow; populations without CREATE TABLE statements against '
+                  'MetaTrace!ExpAttrs (inferred classes)',
         text='Every small population, including all statement orders, is an action instance of the model and is loaded by the real '
              'loader; larger random populations cover null, duplicate, dangling keys and shared referential attributes. The '
              'API route is specified as the same join restricted to existing referred instances, so the equality of both routes '
              'is decided by the same relational definition.',
-        design_ref='DESIGN.md §3.3, §4 C03', note=META_NOTE + '; the SQL renderer vt/adapters/_sql.py'),
+        design_ref='DESIGN.md §3, §4 C03', note=META_NOTE + '; the SQL renderer vt/adapters/_sql.py'),
 })
 
 
@@ -108,7 +115,7 @@ CHECKS.update({
              'not say which texts are accepted. Every recorded call must be one of those actions, so an unrelated built-in '
              'exception, a half-applied text (statement count or twin build differs) or a call exceeding its time budget has no '
              'matching action and is reported.',
-        design_ref='DESIGN.md §3.3, §4 C12',
+        design_ref='DESIGN.md §3, §4 C12',
         note='trusted: TLC, the recording adapter vt/adapters/loadio.py (exception class, len(loader.statements), serialisation '
              'of loader and twin builds), the mutation operators of vt/sqltok.py'),
 })
@@ -118,12 +125,13 @@ CHECKS.update({
     'C18': dict(
         technique='Builds.tla enumerates every interleaving of inputs, builds and mutations on one loader; each schedule is executed on '
                   'a real loader and validated by TLC once per built metamodel against Meta.tla (own build = LoadBuild of the rows '
-                  'accepted so far, own mutations = Meta actions, every other call = stutter)',
+                  'accepted so far, own mutations = Meta actions, every other call = stutter); with Late = TRUE the schema chunk '
+                  'arrives after rows / builds or never and the classes of such builds are inferred (MetaTrace!ExpAttrs)',
         text='Independence is a statement about interleavings, so the schedules are enumerated exhaustively by the model checker '
              '(3 chunks, 2-3 builds, 2 mutations each) and the content of every built metamodel is projected after every call of '
              'the schedule; any leak between metamodels, or of later input into an earlier build, is a non-stutter change that no '
              'action of the focus metamodel explains.',
-        design_ref='DESIGN.md §3.3, §4 C18', note=META_NOTE),
+        design_ref='DESIGN.md §3, §4 C18', note=META_NOTE),
 })
 
 
@@ -139,14 +147,14 @@ CHECKS.update({
         text='Exhaustive over all operator pairs in both positions (8,603 trees quick, 97,890 thorough), so every precedence and '
              'associativity decision of the grammar is exercised against an independent reference parser that TLC has checked '
              'against the specification\'s own unparser; statements of every production by seeded generation.',
-        design_ref='DESIGN.md §3.4, §4 C07', note=OAL_NOTE),
+        design_ref='DESIGN.md §3, §4 C07', note=OAL_NOTE),
     'C13': dict(
         technique='OalSyntax.tla Ranges (token span of every statement and expression node) validated by TLC against the positions '
                   'recorded from the real parser for rendered multi-line texts; totality by token mutants, token soups, noise and '
                   'adversarial unterminated forms under a time budget (OalTrace!Total)',
         text='Which tokens delimit a node is derived from the syntax tree by the specification; the adapter only reports where the '
              'renderer put each token and what the parser recorded, for every node of every text of the C07 corpus.',
-        design_ref='DESIGN.md §3.4, §4 C13', note=OAL_NOTE),
+        design_ref='DESIGN.md §3, §4 C13', note=OAL_NOTE),
 })
 
 
@@ -159,12 +167,12 @@ CHECKS.update({
              'properties); programs are generated type-correct with nested loops, conditionals, where clauses and a population they '
              'build themselves, and TLC - not the harness - computes what each must return and leave behind. Programs outside the '
              'domain (error programs, division) are identified by the specification and counted.',
-        design_ref='DESIGN.md §3.4, §4 C04', note=OAL_NOTE + '; the generator vt/oalgen.py only chooses programs'),
+        design_ref='DESIGN.md §3, §4 C04', note=OAL_NOTE + '; the generator vt/oalgen.py only chooses programs'),
     'C08': dict(
-        technique='the C07 (parse) and C04 (execute) pipelines re-run on renderings with every keyword occurrence in UPPER, Capitalised '
-                  'or random mixed case; the specifications (OalSyntax.tla, OalExec.tla) have no notion of keyword case, so any '
+        technique='the C07 (parse), C04 (execute) and C06 (prebuild: OalType.tla incl. the keyword-valued attributes in canonical case) pipelines re-run on renderings with every keyword occurrence in UPPER, Capitalised '
+                  'or random mixed case; the specifications (OalSyntax.tla, OalExec.tla, OalType.tla) have no notion of keyword case, so any '
                   'dependence of the code on it is a mismatch found by TLC',
-        text='Same corpora and oracles as C07 and C04, crossed with per-keyword case choices.',
+        text='Same corpora and oracles as C07, C04 and C06, crossed with per-keyword case choices.',
         design_ref='DESIGN.md §4 C08', note=OAL_NOTE),
 })
 
@@ -180,13 +188,13 @@ CHECKS.update({
         text='The specification goes from the abstract diagram to the expected definitions, the synthesiser from the diagram to '
              'BridgePoint rows, pyxtuml from the rows to definitions: two independent directions meet in TLC. Edits at every site '
              '(attributes, types, order, multiplicity, conditionality, phrases, identifiers, components) produce the diagrams.',
-        design_ref='DESIGN.md §3.5, §4 C14', note=BP_NOTE),
+        design_ref='DESIGN.md §3, §4 C14', note=BP_NOTE),
     'C20': dict(
         technique='BpModel.tla Xsd evaluated by TLC on the diagrams of the C14 edit scripts and compared with the declarations of the '
                   'schema built by gen_xsd_schema.build_schema / written by gen_xsd_schema.main',
         text='Elements, attribute types through referential and user-type chains, core, enumeration (modeled order) and user simple '
              'types per component; well-formedness by parsing the written file.',
-        design_ref='DESIGN.md §3.5, §4 C20', note=BP_NOTE),
+        design_ref='DESIGN.md §3, §4 C20', note=BP_NOTE),
 })
 
 
@@ -199,7 +207,7 @@ CHECKS.update({
         text='Recursion, mutual recursion, callees that assign their callers\' variable names, by-name arguments in permuted order, bare '
              'and missing returns, calls inside expressions, where clauses and loop conditions; model rows shuffled so that nothing may '
              'depend on row order.',
-        design_ref='DESIGN.md §3.4, §4 C15', note=OAL_NOTE + '; ' + BP_NOTE),
+        design_ref='DESIGN.md §3, §4 C15', note=OAL_NOTE + '; ' + BP_NOTE),
 })
 
 
@@ -212,7 +220,7 @@ CHECKS.update({
         text='The oracle is the same tree vocabulary and unparser that C07 binds to the real parser, so "parses to the same syntax '
              'tree" is decided by TLC on trees, not by comparing texts; every statement kind of the supported set, invocations with '
              'by-name parameters in any order, as statements and as values.',
-        design_ref='DESIGN.md §3.4, §4 C05', note=OAL_NOTE + '; ' + BP_NOTE),
+        design_ref='DESIGN.md §3, §4 C05', note=OAL_NOTE + '; ' + BP_NOTE),
 })
 
 
@@ -224,7 +232,7 @@ CHECKS.update({
                   'Next_Value_ID, line and columns, related data types, declaring blocks, subtype counts, constraint violations',
         text='Typing and structure are defined on the syntax tree by the specification and checked on the C05 corpus in all four '
              'action homes; the referential attributes are read as persisted, so a chain built in the wrong direction is a mismatch.',
-        design_ref='DESIGN.md §3.4, §4 C06', note=OAL_NOTE + '; ' + BP_NOTE + '; the read-back in vt/adapters/prebuildfacts.py'),
+        design_ref='DESIGN.md §3, §4 C06', note=OAL_NOTE + '; ' + BP_NOTE + '; the read-back in vt/adapters/prebuildfacts.py'),
 })
 
 NOT_YET = {}
